@@ -212,14 +212,14 @@ theorem coll_update_items (cfg : Cfg M K R) (s : CState M R) (id : String) (msg 
   have hfin : (Coll.update cfg s id msg wr).2.items = s.items ∨
       (Coll.update cfg s id msg wr).2.items =
         (getAndUpdate cfg.ops (updGet cfg wr) (changeFn cfg.ops wr (fieldUpdater cfg wr) msg) (updSave cfg wr)
-          { st := s, id := icptId cfg id, created := none, idCalls := [], createdCalls := 0 }).2.st.items := by
+          { st := s, id := updKey cfg wr id, created := none, idCalls := [], createdCalls := 0 }).2.st.items := by
     unfold Coll.update
     simp only []
     split
     · exact Or.inl rfl
     · right
       generalize getAndUpdate cfg.ops (updGet cfg wr) (changeFn cfg.ops wr (fieldUpdater cfg wr) msg) (updSave cfg wr)
-        { st := s, id := icptId cfg id, created := none, idCalls := [], createdCalls := 0 } = g
+        { st := s, id := updKey cfg wr id, created := none, idCalls := [], createdCalls := 0 } = g
       rcases g with ⟨r, c⟩
       simp only []
       split <;> simp [updateTimeC_items]
@@ -228,7 +228,7 @@ theorem coll_update_items (cfg : Cfg M K R) (s : CState M R) (id : String) (msg 
   · rw [h]
     have hi := updGet_items cfg wr
     rcases gau_state_cases cfg.ops (updGet cfg wr) (changeFn cfg.ops wr (fieldUpdater cfg wr) msg) (updSave cfg wr)
-      { st := s, id := icptId cfg id, created := none, idCalls := [], createdCalls := 0 } with h1 | h1 | ⟨new, h1⟩
+      { st := s, id := updKey cfg wr id, created := none, idCalls := [], createdCalls := 0 } with h1 | h1 | ⟨new, h1⟩
     · left; rw [h1, hi]
     · left; rw [h1, hi, hi]
     · right
